@@ -7,7 +7,7 @@ from reactivex import operators as ops
 
 from vlib.core import FAIL, OK, Check
 from vlib.lab import conform
-from vlib.timeops import CLOCKS, combine, cv, effective, execute_all, first_fire, fwd, judge, mk_lab, nelems, outcomes, prelude, second_sub, sources, sub_ticks, targ, triggers
+from vlib.timeops import mk_trigger, sched_modes, sched_setup, CLOCKS, combine, cv, effective, execute_all, first_fire, fwd, judge, mk_lab, nelems, outcomes, prelude, second_sub, sources, sub_ticks, targ, triggers
 
 PROPERTY_ID = "C17"
 LEVEL = "exploration"
@@ -27,7 +27,7 @@ RULE = (
     "while each arrives before last-activity+d (absolute: before D); otherwise the fallback is subscribed exactly then (or the "
     "sequence fails then), never after the source terminated; timeout_with_mapper likewise with the first firing (N or C) of "
     "the first-timeout / per-element timeout observable. Non-trivial: some element within one tick of a boundary (for timeout: "
-    "within one tick of a running deadline). In 1 case of 3 the same built observable is subscribed a second time at a generated tick s1 in s0+{0,1,2,3,7}; the same oracle is applied to that probe with its own subscribe tick, and the fallback must be subscribed once per timed-out subscription. Distinct = distinct case JSON."
+    "within one tick of a running deadline). In 1 case of 3 the same built observable is subscribed a second time at a generated tick s1 in s0+{0,1,2,3,7}; the same oracle is applied to that probe with its own subscribe tick, and the fallback must be subscribed once per timed-out subscription. Scheduler passing: the take/skip operators and timeout are run in the modes sub (no argument, subscription carries the lab scheduler), arg (scheduler argument, subscription carries none) and arg-other (argument, subscription carries a different never-started virtual scheduler reading +1000 ticks) and must behave identically; one in four timeout observables and fallbacks is a scheduler-less library factory (timer(d), empty(), return_value, never) that must run on the scheduler in force. Any request for the real-time TimeoutScheduler during a run is refused and reported (realtime-fallback), any action left on the decoy scheduler is reported (wrong-scheduler). Distinct = distinct case JSON."
 )
 ASSUMPTIONS = [
     "at an exact tie between an operator timer and a source notification either order is accepted (one order per timer and instant)",
@@ -40,7 +40,7 @@ FORMS = ["num", "float", "td"]
 
 
 def _bcls(case):
-    return [f"clock:{case['clock']}", f"src:{case['src']['kind']}", f"form:{case.get('form')}"]
+    return [f"clock:{case['clock']}", f"src:{case['src']['kind']}", f"form:{case.get('form')}", f"sch:{case.get('sch') or 'sub'}"]
 
 
 def _near(eff, B):
@@ -89,7 +89,8 @@ def _run_window(case):
     arg = targ(lab, form, case["b"])
     f = {"take_with_time": ops.take_with_time, "skip_with_time": ops.skip_with_time, "take_until_with_time": ops.take_until_with_time, "skip_until_with_time": ops.skip_until_with_time}[op]
     ticks = sub_ticks(case)
-    probes = execute_all(lab, src.pipe(f(arg)), ticks)
+    kw, sub = sched_setup(lab, case)
+    probes = execute_all(lab, src.pipe(f(arg, **kw)), ticks, sub=sub)
     return combine([_judge_window(case, lab, p, s) for p, s in zip(probes, ticks)], ticks)
 
 
@@ -115,7 +116,8 @@ def _run_last_once(case, tl, op):
     lab = mk_lab(case["clock"])
     src = lab.source({"kind": case["src"]["kind"], "tl": tl})
     f = ops.take_last_with_time if op == "take_last_with_time" else ops.skip_last_with_time
-    probes = execute_all(lab, src.pipe(f(targ(lab, case["form"], case["d"]))), sub_ticks(case))
+    kw, sub = sched_setup(lab, case)
+    probes = execute_all(lab, src.pipe(f(targ(lab, case["form"], case["d"]), **kw)), sub_ticks(case), sub=sub)
     return lab, probes
 
 
@@ -287,7 +289,7 @@ def _check_fallback_all(op, case, oth, wants_per_probe, cls):
     if any(not w for w in wants_per_probe):
         return None
     combos = [sorted(sum(c, [])) for c in itertools.product(*wants_per_probe)]
-    if oth is not None and sorted(x[0] for x in oth.subs) not in combos:
+    if oth is not None and hasattr(oth, "subs") and sorted(x[0] for x in oth.subs) not in combos:
         sig = f"fallback-subscription|{op}" + (":2nd-subscription" if len(wants_per_probe) > 1 else "")
         return FAIL(sig, f"fallback subscriptions {oth.subs}, expected at {combos[0]}; case={case}", classes=cls)
     return None
@@ -306,10 +308,11 @@ def _run_timeout(case):
     form = case["form"]
     src = lab.source(case["src"])
     other = case.get("other")
-    oth = lab.source(other) if other is not None else None
+    oth = mk_trigger(lab, other) if other is not None else None
     arg = targ(lab, form, case["b"])
     ticks = sub_ticks(case)
-    probes = execute_all(lab, src.pipe(ops.timeout(arg, oth) if oth is not None else ops.timeout(arg)), ticks)
+    kw, sub = sched_setup(lab, case)
+    probes = execute_all(lab, src.pipe(ops.timeout(arg, oth, **kw) if oth is not None else ops.timeout(arg, **kw)), ticks, sub=sub)
     res, wants = [], []
     for p, s0 in zip(probes, ticks):
         eff = effective(case["src"], s0)
@@ -372,10 +375,10 @@ def _run_twm(case):
     lab = mk_lab(case["clock"])
     src = lab.source(case["src"])
     first, tos, other = case.get("first"), case["tos"], case.get("other")
-    oth = lab.source(other) if other is not None else None
-    fst = lab.source(first) if first is not None else None
+    oth = mk_trigger(lab, other) if other is not None else None
+    fst = mk_trigger(lab, first) if first is not None else None
     ticks = sub_ticks(case)
-    probes = execute_all(lab, src.pipe(ops.timeout_with_mapper(fst, lambda x: lab.source(tos[x]), oth)), ticks)
+    probes = execute_all(lab, src.pipe(ops.timeout_with_mapper(fst, lambda x: mk_trigger(lab, tos[x]), oth)), ticks)
     res, wants = [], []
     for p, s0 in zip(probes, ticks):
         eff = effective(case["src"], s0)
@@ -435,7 +438,7 @@ def _window_cases(draw):
     b = d
     if form == "abs":
         b = draw(st.sampled_from([s0 + d, s0 + d, s0 + d, max(0, s0 - 1), s0]))
-    return {"clock": draw(st.sampled_from(CLOCKS)), "s0": s0, "src": spec, "op": op, "form": form, "b": b, "s1": second_sub(draw, s0)}
+    return {"clock": draw(st.sampled_from(CLOCKS)), "s0": s0, "src": spec, "op": op, "form": form, "b": b, "s1": second_sub(draw, s0), "sch": sched_modes(draw)}
 
 
 @st.composite
@@ -448,13 +451,16 @@ def _last_cases(draw):
     extra = None
     if draw(st.integers(0, 3)) > 0:
         extra = {"pos": draw(st.integers(0, 6)), "frac": draw(st.integers(0, 3))}
-    return {"clock": draw(st.sampled_from(CLOCKS)), "s0": s0, "src": spec, "op": op, "form": draw(st.sampled_from(FORMS)), "d": d, "extra": extra, "s1": second_sub(draw, s0)}
+    return {"clock": draw(st.sampled_from(CLOCKS)), "s0": s0, "src": spec, "op": op, "form": draw(st.sampled_from(FORMS)), "d": d, "extra": extra, "s1": second_sub(draw, s0), "sch": sched_modes(draw)}
 
 
 @st.composite
 def _others(draw):
     if draw(st.booleans()):
         return None
+    if draw(st.integers(0, 3)) == 0:  # scheduler-less library fallback: must run on the scheduler in force
+        t = draw(st.sampled_from([0, 1, 2]))
+        return draw(st.sampled_from([{"kind": "lib:timer", "tl": [[t, "N", "n:0"], [t, "C", None]]}, {"kind": "lib:return", "tl": [[0, "N", "n:7"], [0, "C", None]]}, {"kind": "lib:empty", "tl": [[0, "C", None]]}]))
     _, spec = draw(sources(d=2, max_len=2, kinds=("cold", "cold", "sync"), base=100))
     return spec
 
@@ -469,7 +475,7 @@ def _timeout_cases(draw):
         last = max([0] + [m[0] for m in spec["tl"]])
         base = s0 if spec["kind"] != "hot" else 0
         b = draw(st.sampled_from([s0 + d, base + last, base + last + 1, max(0, base + last - 1), max(0, s0 - 1), s0]))
-    return {"clock": draw(st.sampled_from(CLOCKS)), "s0": s0, "src": spec, "form": form, "b": b, "other": draw(_others()), "s1": second_sub(draw, s0)}
+    return {"clock": draw(st.sampled_from(CLOCKS)), "s0": s0, "src": spec, "form": form, "b": b, "other": draw(_others()), "s1": second_sub(draw, s0), "sch": sched_modes(draw)}
 
 
 @st.composite
